@@ -398,3 +398,64 @@ fn single_name<const L1: usize, const L2: usize>() {
     assert!(buf.len == nm.n && has(&buf.data, 0, &nm.w[..nm.n]));
     assert!(has(&cb.data, 0, &low[..nm.n]));
 }
+
+// @funcs: Tsig::{new,compose_rdata,rdlen,compose_len_rdata}, Time48::compose
+// @bound: algorithm name with label structure (2,1) and symbolic content, all integer fields, MAC of 2 and other-data of 3 symbolic octets (concrete lengths, symbolic content): advertised length == octets written; layout per RFC 8945 4.2
+#[kani::proof]
+#[kani::unwind(10)]
+fn c05_tsig_compose_mac2_other3() {
+    tsig_compose::<2, 3>()
+}
+
+// @funcs: Tsig::{new,compose_rdata,rdlen,compose_len_rdata}
+// @bound: as above with empty MAC and empty other data
+#[kani::proof]
+#[kani::unwind(10)]
+fn c05_tsig_compose_mac0_other0() {
+    tsig_compose::<0, 0>()
+}
+
+fn tsig_compose<const M: usize, const O: usize>() {
+    use domain::rdata::tsig::{Time48, Tsig};
+    let nm = FlatName::any::<2, 1>();
+    let t: u64 = kani::any();
+    kani::assume(t < (1 << 48));
+    let (fudge, oid, err): (u16, u16, u16) = (kani::any(), kani::any(), kani::any());
+    let macd: [u8; M] = kani::any();
+    let otherd: [u8; O] = kani::any();
+    let (mac, other) = (Bytes::<M> { d: macd, n: M }, Bytes::<O> { d: otherd, n: O });
+    let v = Tsig::new(nm.name(), Time48::from_u64(t), fudge, mac.s(), oid, TsigRcode::from_int(err), other.s()).unwrap();
+    let (buf, _cb) = compose_checks!(v);
+    let mut o = nm.n;
+    assert!(buf.len == nm.n + 16 + mac.n + other.n);
+    assert!(has(&buf.data, 0, &nm.w[..nm.n]));
+    assert!(((be16(&buf.data, o) as u64) << 32 | be32(&buf.data, o + 2) as u64) == t);
+    o += 6;
+    assert!(be16(&buf.data, o) == fudge && be16(&buf.data, o + 2) as usize == mac.n && has(&buf.data, o + 4, mac.s()));
+    o += 4 + mac.n;
+    assert!(be16(&buf.data, o) == oid && be16(&buf.data, o + 2) == err && be16(&buf.data, o + 4) as usize == other.n && has(&buf.data, o + 6, other.s()));
+}
+
+// @funcs: RtypeBitmap::from_octets (window walk), used by Nsec::parse / Nsec3::parse
+// @assume: the buffer holds at most the one window (n <= 2 + len); multi-window walks are covered through the builder harnesses of C13
+// @bound: every one-window bitmap [window, len, data...] with any declared length 0..=255 inside a buffer of 0..=36 octets: accepted <=> 1 <= len <= 32 and the data is exactly len octets (RFC 4034 4.1.2)
+#[kani::proof]
+#[kani::unwind(4)]
+fn c05_bitmap_window_length_validation() {
+    use domain::rdata::dnssec::RtypeBitmap;
+    let buf: [u8; 36] = kani::any();
+    let n: usize = kani::any();
+    kani::assume(n >= 2 && n <= 36);
+    let len = buf[1] as usize;
+    kani::assume(n <= 2 + len);
+    // single window: the buffer ends right after it, or is too short/long
+    let r = RtypeBitmap::from_octets(&buf[..n]);
+    let exact = n == 2 + len;
+    if exact {
+        assert!(r.is_ok() == (len >= 1 && len <= 32));
+    }
+    if n < 2 + len {
+        assert!(r.is_err());
+    }
+    kani::cover!(exact && len == 32 && r.is_ok(), "full 32-octet window accepted");
+}
